@@ -104,7 +104,7 @@ def _worker_init(modname, tier, seed, lines):
     if hasattr(_MOD, "worker_init"):
         _MOD.worker_init(tier, seed)
     from vf.engine import smt
-    smt.CROSS["every"] = int(os.environ.get("VERIF_CROSS_EVERY", "0") or 0)
+    smt.CROSS["every"] = int(os.environ.get("VERIF_CROSS_EVERY", "60" if tier == "thorough" else "0") or 0)
     signal.signal(signal.SIGALRM, _alarm)
 
 
@@ -255,6 +255,8 @@ def main(argv=None):
 
     # ---------------------------------------------------------------- triage
     n_proved = n_inconc = 0
+    closures = set()
+    skipped = {}
     inconc_samples = []
     errors = []
     viols = []
@@ -268,6 +270,12 @@ def main(argv=None):
                 had_q = True
             elif r["status"] == "conformance":
                 conf["points"] += r.get("points", 0)
+                w = r.get("what", "")
+                for pre in ("fast paths: ", "paths: ", "closures: "):
+                    if w.startswith(pre):
+                        closures.update(x for x in w[len(pre):].split(",") if x)
+                if w.startswith("not treated as LP") or w.startswith("rejected with") or "not applicable" in w or "not reached" in w:
+                    skipped[w.split(":")[0][:60]] = skipped.get(w.split(":")[0][:60], 0) + 1
             elif r["status"] == "inconclusive":
                 n_inconc += 1
                 if len(inconc_samples) < 8:
@@ -367,6 +375,8 @@ def main(argv=None):
             "outside_claim": meta.get("outside", []),
             "functions_executed_symbolically": sorted(funcs),
             "shortcut_coverage": shortcut_cov,
+            "closures_reached": sorted(closures),
+            "cases_outside_the_property": skipped,
             "known_findings_hit": [{"what": k, **v} for k, v in known_hit.items()],
             "violations_reported": [{"sig": s, "replay": p, "detail": d[:300], "what": w[:300]} for s, (p, d, w) in reported.items()],
             "further_counterexamples_not_replayed": not_replayed,
